@@ -46,7 +46,7 @@ theorem overload_search_shape :
 
 theorem config_check_shape :
     Gen.configCheckOperatorLoop =
-      "for op, fns := range c.Operators { for _, fn := range fns { fnType, ok := c.Types[fn] if !ok || fnType.Type.Kind() != reflect.Func { return fmt.Errorf(\"function %s for %s operator does not exist in environment\", fn, op) } requiredNumIn := 2 if fnType.Method { requiredNumIn = 3 } if fnType.Type.NumIn() != requiredNumIn || fnType.Type.NumOut() != 1 { return fmt.Errorf(\"function %s for %s operator does not have a correct signature\", fn, op) } } }" :=
+      "for op, fns := range c.Operators { for _, fn := range fns { fnType, ok := c.Types[fn] if !ok || fnType.Type == nil || fnType.Type.Kind() != reflect.Func { return fmt.Errorf(\"function %s for %s operator does not exist in environment\", fn, op) } requiredNumIn := 2 if fnType.Method { requiredNumIn = 3 } if fnType.Type.NumIn() != requiredNumIn || fnType.Type.NumOut() != 1 { return fmt.Errorf(\"function %s for %s operator does not have a correct signature\", fn, op) } } }" :=
   rfl
 
 /-- **Main theorem.**  For every overload table, every typing of the nodes and every tree: patching the
@@ -108,7 +108,7 @@ theorem others_keep_builtin (ops : OpTable) (tyOf : Node → String) (m : Meta) 
 
 /-- a mapped operator whose operand types fit no candidate keeps its built-in meaning -/
 theorem others_keep_builtin_types (ops : OpTable) (tyOf : Node → String) (m : Meta) (op : String) (l r : Node)
-    (cands : List Cand) (h : ops.lookup op = some cands)
+    (cands : List OpCand) (h : ops.lookup op = some cands)
     (hno : ∀ c ∈ cands, (c.l.fits (tyOf (explicitCallForm ops tyOf l)) && c.r.fits (tyOf (explicitCallForm ops tyOf r))) = false) :
     explicitCallForm ops tyOf (.binary m op l r) =
       .binary m op (explicitCallForm ops tyOf l) (explicitCallForm ops tyOf r) := by
@@ -121,14 +121,14 @@ theorem only_binary_rewritten (ops : OpTable) (tyOf : Node → String) (n : Node
   cases n <;> first | rfl | exact absurd rfl h
 
 /-- the first candidate, in the order the functions were given, whose two parameters fit is chosen -/
-theorem first_match_wins (pre post : List Cand) (c : Cand) (tl tr : String)
+theorem first_match_wins (pre post : List OpCand) (c : OpCand) (tl tr : String)
     (hpre : ∀ d ∈ pre, (d.l.fits tl && d.r.fits tr) = false) (hc : (c.l.fits tl && c.r.fits tr) = true) :
     findOverload (pre ++ c :: post) tl tr = some c.fn :=
   findOverload_first pre post c tl tr hpre hc
 
 /-- a chosen function is a candidate both of whose parameters fit the operand types: equal type, or an
     interface parameter with a nil-typed operand or an operand type implementing it -/
-theorem chosen_fits (cs : List Cand) (tl tr fn : String) (h : findOverload cs tl tr = some fn) :
+theorem chosen_fits (cs : List OpCand) (tl tr fn : String) (h : findOverload cs tl tr = some fn) :
     ∃ c ∈ cs, c.fn = fn ∧
       (tl = c.l.ty ∨ (c.l.iface = true ∧ (tl = nilTyKey ∨ tl ∈ c.l.impls))) ∧
       (tr = c.r.ty ∨ (c.r.iface = true ∧ (tr = nilTyKey ∨ tr ∈ c.r.impls))) := by
@@ -146,7 +146,7 @@ theorem patched_keeps_meta (ops : OpTable) (tyOf : Node → String) (m : Meta) (
 
 /-- **Config.Check** accepts an operator table exactly when every mapped name is in the types table
     with a function type of two parameters (three for methods: the receiver) and one result; anything
-    else is rejected (`missing` / `badSignature`) — or panics, for a name whose tag has no type. -/
+    else is rejected with an error (`missing` / `badSignature`). -/
 theorem config_check_rejects (types : List (String × FnTag)) (ops : List (String × List String)) :
     configCheck types ops = .ok ↔
       ∀ e ∈ ops, ∀ fn ∈ e.2, ∃ t, types.lookup fn = some t ∧
@@ -154,11 +154,19 @@ theorem config_check_rejects (types : List (String × FnTag)) (ops : List (Strin
   rw [configCheck_ok_iff]
   simp [FnTag.wellShaped, and_assoc]
 
-/-- the one way `Config.Check` does not return an error for an unusable name: a tag without type
-    (an ambiguous embedded field) makes `fnType.Type.Kind()` dereference nil -/
-theorem config_check_panic_witness :
-    configCheck [("X", { hasType := false, isFunc := false, numIn := 0, numOut := 0 })] [("+", ["X"])] = .panic "X" "+" := by
+/-- a name whose tag has no type (an ambiguous embedded field, a nil map value) is rejected as missing -/
+theorem config_check_untyped_rejected :
+    configCheck [("X", { hasType := false, isFunc := false, numIn := 0, numOut := 0 })] [("+", ["X"])] = .missing "X" "+" := by
   decide
+
+/-- `Config.Check` never fails otherwise than by returning one of its two errors -/
+theorem config_check_total (types : List (String × FnTag)) (ops : List (String × List String)) :
+    configCheck types ops = .ok ∨ (∃ fn op, configCheck types ops = .missing fn op) ∨
+      (∃ fn op, configCheck types ops = .badSignature fn op) := by
+  cases h : configCheck types ops with
+  | ok => exact Or.inl rfl
+  | missing fn op => exact Or.inr (Or.inl ⟨fn, op, rfl⟩)
+  | badSignature fn op => exact Or.inr (Or.inr ⟨fn, op, rfl⟩)
 
 /-- not stated here: that the VM evaluates `FunctionNode fn [l, r]` as `fn` applied to the values of
     `l` and `r` in order (C01's compile-and-run conformance); the harness checks it on the real code. -/
